@@ -21,7 +21,7 @@ import (
 	"symgo/eng"
 )
 
-const (
+var (
 	repoDir  = "/repo"
 	verifDir = "/verif"
 )
@@ -32,6 +32,10 @@ func main() {
 	os.Setenv("GOPROXY", "off")
 	os.Setenv("GOSUMDB", "off")
 	os.Setenv("GOTOOLCHAIN", "local")
+	if r := os.Getenv("VERIF_REPO"); r != "" {
+		// development aid (seeded-change evaluation on a scratch worktree); registered commands never set it
+		repoDir = r
+	}
 	if len(os.Args) < 2 {
 		usage()
 	}
@@ -127,9 +131,9 @@ func cmdRun(args []string) int {
 		fmt.Printf("INCONCLUSIVE property=%s reason=no harness found\n", prop)
 		return 2
 	}
-	timeout := 30000
+	timeout := 120000
 	if *tier == "thorough" {
-		timeout = 180000
+		timeout = 600000
 	}
 	if s := os.Getenv("VERIF_QUERY_TIMEOUT_MS"); s != "" {
 		timeout, _ = strconv.Atoi(s)
